@@ -60,6 +60,7 @@ def run_cell(prop, cell, opts):
                 break
             ctx.begin()
             api.reset_path()
+            del rt.PICKLE_BOX[:]
             nv = len(ctx.violations)
             aborted = False
             try:
@@ -68,21 +69,21 @@ def run_cell(prop, cell, opts):
                 aborted = True
             except core.Unsupported as e:
                 aborted = True
-                _add_inc(res, 'unsupported: %s' % (e,))
+                _add_inc(res, 'unsupported: %s' % (e,), ctx)
             except core.StepBudget as e:
                 aborted = True
-                _add_inc(res, 'step budget: %s' % (e,))
+                _add_inc(res, 'step budget: %s' % (e,), ctx)
             except core.EngineError:
                 raise
             except Exception as e:
                 aborted = True
                 tb = traceback.format_exc(limit=6)
                 _add_inc(res, 'harness exception %s: %s\n%s' %
-                         (type(e).__name__, e, tb))
+                         (type(e).__name__, e, tb), ctx)
             except BaseException as e:
                 if type(e).__name__ in ('LoopBudget',):
                     aborted = True
-                    _add_inc(res, 'loop budget: %s' % (e,))
+                    _add_inc(res, 'loop budget: %s' % (e,), ctx)
                 else:
                     raise
             finally:
@@ -136,13 +137,21 @@ def run_cell(prop, cell, opts):
     return res
 
 
-def _add_inc(res, reason):
+def _add_inc(res, reason, ctx=None):
     for r in res['inconclusive']:
         if r['reason'] == reason:
             r['count'] = r.get('count', 1) + 1
             return
     if len(res['inconclusive']) < 20:
-        res['inconclusive'].append({'reason': reason, 'count': 1})
+        ent = {'reason': reason, 'count': 1}
+        if ctx is not None:
+            try:
+                if ctx._check():
+                    ent['example_inputs'] = ctx.model_values(
+                        ctx.solver.model())
+            except BaseException:
+                pass
+        res['inconclusive'].append(ent)
 
 
 # ------------------------------------------------------------------ replay
